@@ -148,6 +148,15 @@ Definition mac_src (m : mac_alg) : string :=
 Definition params_tv (k : cbchmac_kind) : tv :=
   let '(e, m, t, h) := cbchmac_sizes k in TL [tnat e; tnat m; tnat t; TS (mac_src h)].
 
+(* the names the model's OAEP schemes, hash-suffix and key-size functions distinguish *)
+Definition oaep_names : list string :=
+  filter (fun n => match rsa_enc_scheme_of n with Some (SchemeOAEP _) => true | _ => false end)
+         supported_asymmetric.
+Definition sha_suffixes : list string :=
+  filter (fun d => negb (Nat.eqb (sha_hash_size ("XX" ++ d)) 0)) ["128"; "192"; "256"; "384"; "512"].
+Definition key_digits : list string :=
+  filter (fun d => negb (Nat.eqb (expected_key_size ("A" ++ d ++ "KW")) 0)) ["128"; "192"; "256"; "384"; "512"].
+
 (* size <= lo || size >= hi is refused *)
 Definition pkcs7_ok (v : tv) : bool :=
   match v with
@@ -156,28 +165,54 @@ Definition pkcs7_ok (v : tv) : bool :=
   | _ => false
   end.
 
+Definition routed_names : list string :=
+  filter (fun n => match generic_route n with RouteNone => false | _ => true end)
+         (names_cbc_pad ++ names_cbc_nopad ++ names_gcm ++ names_cbc_hmac ++ names_kw
+          ++ names_chacha ++ names_xchacha ++ names_gcmkw ++ names_ecdh ++ names_rsa_enc
+          ++ names_rs ++ names_ps ++ names_es ++ ["EdDSA"])%list.
+
+Definition count (l : list string) : tv -> bool := eqv (tnat (List.length l)).
+
 Definition table : list entry :=
-  [ ("crypto.SupportedSymmetricAlgorithms", eqv (tstrs supported_symmetric));
-    ("crypto.SupportedAsymmetricAlgorithms", eqv (tstrs supported_asymmetric));
-    ("crypto.SupportedSignatureAlgorithms", eqv (tstrs supported_signature));
-    ("crypto.Encrypt", each_pair 28 (route_ok "EncryptSymmetric" "EncryptPublicKey"));
-    ("crypto.Decrypt", each_pair 28 (route_ok "DecryptSymmetric" "DecryptPrivateKey"));
-    ("crypto.EncryptSymmetric", each_pair (List.length supported_symmetric) (sym_ok true));
-    ("crypto.DecryptSymmetric", each_pair (List.length supported_symmetric) (sym_ok false));
-    ("crypto.EncryptPublicKey", each_pair (List.length supported_asymmetric) (rsa_ok "encryptPublicKey"));
-    ("crypto.DecryptPrivateKey", each_pair (List.length supported_asymmetric) (rsa_ok "decryptPrivateKey"));
-    ("crypto.SignPrivateKey", each_pair (List.length supported_signature) (sig_ok "signPrivateKey"));
-    ("crypto.VerifyPublicKey", each_pair (List.length supported_signature) (sig_ok "verifyPublicKey"));
-    ("crypto.getChaCha20Poly1305Cipher", each_pair 4 chacha_ok);
-    ("crypto.getECDSACurve", each_pair 3 curve_ok);
-    ("crypto.EncryptPublicKey.oaepHash", each_pair 4 oaep_hash_ok);
-    ("crypto.DecryptPrivateKey.oaepHash", each_pair 4 oaep_hash_ok);
-    ("crypto.getSHAHash", each_pair 3 sha_ok);
-    ("crypto.expectedKeySize", each_pair 3 keysize_ok);
+  [ ("crypto.SupportedSymmetricAlgorithms[]", nth_of (map TS supported_symmetric));
+    ("crypto.SupportedSymmetricAlgorithms[#]", count supported_symmetric);
+    ("crypto.SupportedAsymmetricAlgorithms[]", nth_of (map TS supported_asymmetric));
+    ("crypto.SupportedAsymmetricAlgorithms[#]", count supported_asymmetric);
+    ("crypto.SupportedSignatureAlgorithms[]", nth_of (map TS supported_signature));
+    ("crypto.SupportedSignatureAlgorithms[#]", count supported_signature);
+    ("crypto.Encrypt[]", on_pair (route_ok "EncryptSymmetric" "EncryptPublicKey"));
+    ("crypto.Encrypt[#]", count routed_names);
+    ("crypto.Decrypt[]", on_pair (route_ok "DecryptSymmetric" "DecryptPrivateKey"));
+    ("crypto.Decrypt[#]", count routed_names);
+    ("crypto.EncryptSymmetric[]", on_pair (sym_ok true));
+    ("crypto.EncryptSymmetric[#]", count supported_symmetric);
+    ("crypto.DecryptSymmetric[]", on_pair (sym_ok false));
+    ("crypto.DecryptSymmetric[#]", count supported_symmetric);
+    ("crypto.EncryptPublicKey[]", on_pair (rsa_ok "encryptPublicKey"));
+    ("crypto.EncryptPublicKey[#]", count supported_asymmetric);
+    ("crypto.DecryptPrivateKey[]", on_pair (rsa_ok "decryptPrivateKey"));
+    ("crypto.DecryptPrivateKey[#]", count supported_asymmetric);
+    ("crypto.SignPrivateKey[]", on_pair (sig_ok "signPrivateKey"));
+    ("crypto.SignPrivateKey[#]", count supported_signature);
+    ("crypto.VerifyPublicKey[]", on_pair (sig_ok "verifyPublicKey"));
+    ("crypto.VerifyPublicKey[#]", count supported_signature);
+    ("crypto.getChaCha20Poly1305Cipher[]", on_pair chacha_ok);
+    ("crypto.getChaCha20Poly1305Cipher[#]", count (names_chacha ++ names_xchacha)%list);
+    ("crypto.getECDSACurve[]", on_pair curve_ok);
+    ("crypto.getECDSACurve[#]", count names_es);
+    ("crypto.EncryptPublicKey.oaepHash[]", on_pair oaep_hash_ok);
+    ("crypto.EncryptPublicKey.oaepHash[#]", count oaep_names);
+    ("crypto.DecryptPrivateKey.oaepHash[]", on_pair oaep_hash_ok);
+    ("crypto.DecryptPrivateKey.oaepHash[#]", count oaep_names);
+    ("crypto.getSHAHash[]", on_pair sha_ok);
+    ("crypto.getSHAHash[#]", count sha_suffixes);
+    ("crypto.expectedKeySize[]", on_pair keysize_ok);
+    ("crypto.expectedKeySize[#]", count key_digits);
     ("crypto.encryptSymmetricAESCBC.nopad1", nopad_ok);
     ("crypto.encryptSymmetricAESCBC.nopad2", nopad_ok);
     ("crypto.decryptSymmetricAESCBC.nopad1", nopad_ok);
-    ("crypto.getAESCBCHMACCipher", each_pair 3 cbchmac_ok);
+    ("crypto.getAESCBCHMACCipher[]", on_pair cbchmac_ok);
+    ("crypto.getAESCBCHMACCipher[#]", count names_cbc_hmac);
     ("aescbcaead.NewAESCBC128SHA256", eqv (params_tv CH_128_256));
     ("aescbcaead.NewAESCBC192SHA384", eqv (params_tv CH_192_384));
     ("aescbcaead.NewAESCBC256SHA384", eqv (params_tv CH_256_384));
@@ -186,12 +221,3 @@ Definition table : list entry :=
     ("padding.UnpadPKCS7.size", pkcs7_ok) ].
 
 Definition run_cases := run_tab table.
-
-(* the number of names the model routes through the generic Encrypt / Decrypt (a regression
-   test of the literal 28 above against the model's own name lists) *)
-Example routed_names_today :
-  List.length (filter (fun n => match generic_route n with RouteNone => false | _ => true end)
-                 (names_cbc_pad ++ names_cbc_nopad ++ names_gcm ++ names_cbc_hmac ++ names_kw
-                  ++ names_chacha ++ names_xchacha ++ names_gcmkw ++ names_ecdh ++ names_rsa_enc
-                  ++ names_rs ++ names_ps ++ names_es)%list) = 28.
-Proof. vm_compute. reflexivity. Qed.
